@@ -576,6 +576,10 @@ func (w *World) applyStumpy(n *Node, b *Block) {
 		}
 	}
 	proof = n.upProof(proof, b.Pre.N)
+	w.forgedStump(n, b, proof)
+	if w.stop || n.tainted {
+		return
+	}
 	nb := &nodeBlk{preStump: copyStump(n.st)}
 	n.blk[b.ID] = nb
 	// stand-alone verification first (what a validating node does)
@@ -869,4 +873,55 @@ func (w *World) forgedTraffic(n *Node, b *Block, afterVerify bool) {
 	w.stats.Reach["forged_rejected_then_state_checked"]++
 	n.hasForged = true
 	w.checkNode(n, pre, "after-rejected-"+kind)
+}
+
+// forgedStump: the roots-only verifier receives a corrupted version of the
+// block (one proof hash or deleted hash replaced) together with the block's
+// additions.  Stump.Update must refuse it and leave the verifier state as it
+// was; the honest block follows.
+func (w *World) forgedStump(n *Node, b *Block, honest u.Proof) {
+	if w.sc.Forged <= 0 || len(b.Dels) == 0 || n.tainted || w.inTwin {
+		return
+	}
+	r := SubRng(b.Seed^uint64(n.idx+1)*0xf08ed, "forged-stump")
+	if !r.Pct(w.sc.Forged) {
+		return
+	}
+	var fresh H
+	x := r.Next()
+	for i := range fresh {
+		fresh[i] = byte(x >> (uint(i%8) * 8))
+		if i%8 == 7 {
+			x = mix64(x)
+		}
+	}
+	fresh[0], fresh[31] = 0xfb, fresh[31]|1
+	dels := padH(b.Dels)
+	proof := u.Proof{Targets: padU(honest.Targets), Proof: padH(honest.Proof)}
+	what := "a deleted hash replaced"
+	if len(proof.Proof) > 0 && r.Bool() {
+		proof.Proof[r.Intn(len(proof.Proof))] = fresh
+		what = "a proof hash replaced"
+	} else {
+		dels[r.Intn(len(dels))] = fresh
+	}
+	g := w.fp.begin("Stump.Update", dels, proof.Targets, proof.Proof, b.Adds)
+	err, pan := guard(func() error { _, e := n.st.Update(dels, b.Adds, proof); return e })
+	g.end()
+	w.stats.Events++
+	w.stats.Faults["forged_update"]++
+	w.logf("%s: forged block %d (%s) -> refused=%v", n.name, b.ID, what, err != nil)
+	switch {
+	case pan:
+		w.violate(n, "C04", "panic:forged-update", fmt.Sprintf("Stump.Update with %s panicked: %v", what, err))
+		n.tainted = true
+		return
+	case err == nil:
+		w.violate(n, "C03", "forged-accepted:update", fmt.Sprintf("Stump.Update with %s was accepted", what))
+		n.tainted = true
+		return
+	}
+	n.hasForged = true
+	w.stats.Reach["forged_rejected_then_state_checked"]++
+	w.checkNode(n, b.Pre, "after-refused-update")
 }
